@@ -35,6 +35,6 @@ func main() {
 			panic(p)
 		}
 	}()
-	monitors[o.Prop](o, run)
+	cli.Guard("monitor body", func() { monitors[o.Prop](o, run) })
 	os.Exit(run.Finish())
 }
